@@ -42,7 +42,10 @@ type Case struct {
 	JunkMs []int `json:"junk,omitempty"`
 	// EmptyStale: every stale replay is followed by a record holding a zero-length fragment of the peer's message 0
 	EmptyStale bool `json:"emptystale,omitempty"`
-	HorizonMs  int  `json:"horizon"`
+	// Renumber: the replayed flight carries fresh record sequence numbers in its plaintext (epoch 0) records, as a
+	// genuine retransmission by the peer does (a byte-identical copy is discarded by the replay window)
+	Renumber  bool `json:"renumber,omitempty"`
+	HorizonMs int  `json:"horizon"`
 }
 
 func epsFor(c *Case) (cl, sv scen.EP, resumed bool) {
@@ -103,6 +106,26 @@ func flightsOf(evs []vnet.Event, from string) []int {
 	}
 
 	return starts
+}
+
+// renumber rewrites the sequence numbers of the legacy-framed epoch 0 records of a datagram.
+func renumber(d []byte, next *uint64) []byte {
+	out := append([]byte(nil), d...)
+	for off := 0; off+13 <= len(out); {
+		if out[off]&0xe0 == 0x20 || out[off] == 25 {
+			break // unified or tls12_cid record: protected, left alone
+		}
+		n := int(out[off+11])<<8 | int(out[off+12])
+		if out[off+3] == 0 && out[off+4] == 0 {
+			*next++
+			for i := 0; i < 6; i++ {
+				out[off+5+i] = byte(*next >> (8 * (5 - i)))
+			}
+		}
+		off += 13 + n
+	}
+
+	return out
 }
 
 func ladder(t0 time.Duration, ivl time.Duration, nobackoff bool, horizon time.Duration) []time.Duration {
@@ -296,6 +319,7 @@ func run(c Case, r *pbt.R) {
 			n    int
 		}
 		var receipts []rcv
+		renumSeq := uint64(0x7c0000)
 		for _, s := range stims {
 			if d := s.at - (p.Net.Now() - start); d > 0 {
 				time.Sleep(d)
@@ -314,6 +338,9 @@ func run(c Case, r *pbt.R) {
 				receipts = append(receipts, rcv{now, "new", len(rel)})
 			case "stale":
 				for _, d := range lastDelivered {
+					if c.Renumber {
+						d = renumber(d, &renumSeq)
+					}
 					p.Net.Inject(peer, x, d)
 				}
 				if len(lastDelivered) > 0 && c.EmptyStale {
@@ -481,7 +508,7 @@ func run(c Case, r *pbt.R) {
 				if staleAt[g.at] && completed && !is13 {
 					continue // 1.2: the final flight re-sent in response to a peer retransmission
 				}
-				if staleAt[g.at] && c.EmptyStale && t0.class == "cookie-request" {
+				if staleAt[g.at] && (c.EmptyStale || c.Renumber) && t0.class == "cookie-request" {
 					continue // a stateless server answers what it takes for a repeated ClientHello: per datagram, not on a timer
 				}
 				got = append(got, g.at)
@@ -622,6 +649,7 @@ func gen(t *rapid.T) Case {
 			c.StaleMs = append(c.StaleMs, rapid.IntRange(1, max(2, c.HorizonMs/2)).Draw(t, "staleat"))
 		}
 		c.EmptyStale = rapid.Bool().Draw(t, "emptystale")
+		c.Renumber = rapid.IntRange(0, 2).Draw(t, "renumber") == 0
 	case 3: // junk
 		n := rapid.IntRange(1, 12).Draw(t, "njunk")
 		for i := 0; i < n; i++ {
